@@ -139,6 +139,28 @@ def unit_atom(string=None):
     return AtomParser(string)
 
 
+class Label(AtomBase):
+    """Word atom of the factory configuration."""
+
+    def __init__(self, value):
+        self.value = str(value).strip()
+
+    def __add__(self, o):
+        return Label(self.value + str(o.value))
+
+    def __neg__(self):
+        return Label("-" + self.value)
+
+
+def factory_atom(text):
+    """Atom *factory* (a function, as the DIP solvers pass): words become Label atoms,
+    everything else numeric atoms behind the fault seam."""
+    InjectedFault.tick("construct")
+    if isinstance(text, str) and text.strip().isalpha():
+        return Label(text)
+    return FaultyAtom(text) if not isinstance(text, str) else FaultyAtom(text.strip())
+
+
 def _default_steps(order):
     steps = {
         "args": dict(operators=['log', 'log10', 'logb', 'exp', 'sqrt', 'powb', 'sin', 'cos',
@@ -203,7 +225,12 @@ def _mk_unit():
                                         'truediv': OperatorTruediv})
 
 
+def _mk_factory():
+    return ExpressionSolver(factory_atom)
+
+
 KINDS = {
+    "factory": (_mk_factory, "numeric"),
     "base": (_mk_base, "numeric"),
     "faulty": (_mk_faulty, "numeric"),
     "string": (_mk_string, "string"),
@@ -211,7 +238,7 @@ KINDS = {
     "steps": (_mk_steps, "numeric"),
     "unit": (_mk_unit, "unit"),
 }
-KIND_ORDER = ["base", "faulty", "string", "subset", "steps", "unit"]
+KIND_ORDER = ["base", "faulty", "string", "subset", "steps", "unit", "factory"]
 
 
 # expression generator ---------------------------------------------------------
@@ -332,7 +359,7 @@ def gen_unit(rng, depth):
 # instances, e.g. a class attribute)
 CANARIES = {
     "numeric": ["1", "2+3*4", "(1+2)*3-4/2", "-2**2", "sin(0)+cos(0)", "1<2&&3>=3", "foo*bar",
-                "pow(2,3)"],
+                "pow(2,3)", "sqrt(0-1)", "log(0)", "log10(0-5)+1"],
     "subset": ["1", "2+3*4", "(1+2)*3", "foo*bar+1"],
     "string": ["a", "a+bc", "(a+bc)>x y z", "limit+100 km"],
     "unit": ["m", "kg*m2/s2", "km/(s*K)", "1e3*J"],
@@ -471,10 +498,9 @@ class SolverMachine(Machine):
         InjectedFault.arm(None)
         # pristine outcomes, before any history of this run
         self.pristine = {}
-        with np.errstate(all="ignore"):
-            for k in KIND_ORDER:
-                cans = BASE_CANARIES if k == "base" else CANARIES[KINDS[k][1]]
-                self.pristine[k] = {c: observe(lambda: KINDS[k][0]().solve(c)) for c in cans}
+        for k in KIND_ORDER:
+            cans = BASE_CANARIES if k == "base" else CANARIES[KINDS[k][1]]
+            self.pristine[k] = {c: observe(lambda: KINDS[k][0]().solve(c)) for c in cans}
 
     def stop(self):
         InjectedFault.arm(None)
@@ -573,14 +599,15 @@ class SolverMachine(Machine):
             self.nontrivial = True
             self.stats.probe("call_after_failed_call")
 
-        with np.errstate(all="ignore"):
-            InjectedFault.arm(fault)
-            got = observe(lambda: es.solve(expr))
-            fired = InjectedFault.fired
-            fresh = KINDS[kind][0]()
-            InjectedFault.arm(fault)
-            want = observe(lambda: fresh.solve(expr))
-            InjectedFault.arm(None)
+        # no np.errstate() around the calls: NumPy's error mode is process-level state that a
+        # solve may leave changed, and a context manager here would put it back unnoticed
+        InjectedFault.arm(fault)
+        got = observe(lambda: es.solve(expr))
+        fired = InjectedFault.fired
+        fresh = KINDS[kind][0]()
+        InjectedFault.arm(fault)
+        want = observe(lambda: fresh.solve(expr))
+        InjectedFault.arm(None)
 
         if fault is not None:
             self.stats.fault(f"atom_{fault['site']}_{'interrupt' if fault['exc'] == 'KeyboardInterrupt' else 'error'}", fired)
@@ -606,10 +633,9 @@ class SolverMachine(Machine):
             return "skip", None
         if self.failed_before[kind]:
             self.stats.probe("canary_after_failed_call")
-        with np.errstate(all="ignore"):
-            InjectedFault.arm(None)
-            got = observe(lambda: es.solve(op["expr"]))
-            fresh = observe(lambda: KINDS[kind][0]().solve(op["expr"]))
+        InjectedFault.arm(None)
+        got = observe(lambda: es.solve(op["expr"]))
+        fresh = observe(lambda: KINDS[kind][0]().solve(op["expr"]))
         if got != want:
             raise Violation("history_dependence_vs_pristine",
                             {"instance": kind, "expr": op["expr"], "reused_instance": got,
